@@ -317,20 +317,18 @@ fn parse_pkg_dep_line(pkg_dep_line: &str) -> anyhow::Result<ParsedPkgLine> {
         }
     };
 
-    // Check for salt.
-    let mut iter = s.split('(');
-    let pkg_str = iter
-        .next()
-        .ok_or_else(|| anyhow!("missing pkg string"))?
-        .trim();
-    let salt_str = iter
-        .next()
-        .map(|s| {
-            s.trim()
-                .strip_suffix(')')
-                .ok_or_else(|| anyhow!("missing closing parenthesis after salt"))
-        })
-        .transpose()?;
+    // Check for salt. It is the trailing `(<salt>)`: the source string may itself contain
+    // parentheses, but never ends with one.
+    let s = s.trim();
+    let (pkg_str, salt_str) = match s.strip_suffix(')') {
+        Some(s) => {
+            let (pkg_str, salt_str) = s
+                .rsplit_once('(')
+                .ok_or_else(|| anyhow!("missing opening parenthesis before salt"))?;
+            (pkg_str.trim(), Some(salt_str.trim()))
+        }
+        None => (s, None),
+    };
     let salt = match salt_str {
         Some(salt_str) => Some(
             fuel_tx::Salt::from_str(salt_str)
